@@ -90,6 +90,13 @@ def check_voltage(acc, name, v, kind):
             acc.ev("clamped-low")
             if d != lo:
                 acc.violation("C17/clamp", f"{name}: voltage {v!r} (law {law!r}) should read the minimum {lo}, got {d!r}", case, {})
+    elif v <= 0:
+        # never increasing in the voltage + inside the range: at or below 0 V the reading cannot be below the one at the
+        # smallest positive voltages, which is the far end of the range
+        acc.ev("non-positive-voltage-reads-far-end")
+        if d != hi:
+            acc.violation("C17/not-monotone", f"{name}: voltage {v!r} reads {d!r}, but every small positive voltage reads {hi} "
+                          f"(the reading must not increase with the voltage)", case, {"d": repr(d)})
     return d
 
 
@@ -101,7 +108,8 @@ def check_monotone(acc, name, pairs):
         acc.ev("monotone-pair")
         if v2 > v1 and d2 > d1:
             acc.violation("C17/not-monotone", f"{name}: reading increases with voltage: {v1!r}->{d1!r}, {v2!r}->{d2!r}",
-                          {"mode": "pair", "model": name, "v1": struct.pack(">d", v1).hex(), "v2": struct.pack(">d", v2).hex()}, {})
+                          {"mode": "pair", "model": name, "v1": struct.pack(">d", v1).hex(), "v2": struct.pack(">d", v2).hex(),
+                           "history": list(_RECENT.get("all", ()))}, {})
             return
 
 
